@@ -107,15 +107,17 @@ public:
     {
       if(other.data->ref)
       {
-        Atomic::increment(other.data->ref);
+        Data* otherData = other.data;
+        Atomic::increment(otherData->ref);
         clear();
-        data = other.data;
+        data = otherData;
       }
       else //if(&other != this)
       {
+        Data otherData = *other.data;
         clear();
         data = &_data;
-        _data = *other.data;
+        _data = otherData;
       }
     }
     return *this;
